@@ -101,6 +101,9 @@ func runChildren(jobs []attackctl.Job, par int) []attackctl.Outcome {
 
 func runC02(c *run.Ctx, s *kit.Summary) {
 	attackctl.RunCommon("C03", c, s, runChildren)
+	if c.Replay == "" {
+		e2eCap(c, s, kit.NewRng(c.Seed+11))
+	}
 }
 
 var _ = fmt.Sprint
